@@ -337,6 +337,7 @@ func (unitComp) Parallel() bool { return true }
 
 type unitRunner struct {
 	keyPen
+	reads int
 	violBuf
 	tagBuf
 	u     *storageUnit.Unit
@@ -462,7 +463,18 @@ func (r *unitRunner) Exec(line string) string {
 		r.keys[string(k)] = true
 		_, cached := r.c.Peek(k)
 		r.p.failNext = t[2] == "1"
-		v, err := r.u.Get(k)
+		// Get, GetFromEpoch and SearchFirst are the same read path of the unit: rotate through them
+		var v []byte
+		var err error
+		r.reads++
+		switch r.reads % 3 {
+		case 0:
+			v, err = r.u.Get(k)
+		case 1:
+			v, err = r.u.GetFromEpoch(k, uint32(r.reads))
+		default:
+			v, err = r.u.SearchFirst(k)
+		}
 		r.p.failNext = false
 		want, ok := r.ack[string(k)]
 		faulted := t[2] == "1" && !cached
